@@ -388,6 +388,7 @@ def oracle_gates(h):
     v = h.variant
     prev_stage = None
     prev_flags = None
+    finalised = {'filter': 0, 'extra': 0}
     begun = False
     for i, c, r, vb, va, b0, b1 in h.steps():
         ok = r['status'] == 'ok'
@@ -437,6 +438,11 @@ def oracle_gates(h):
                 out.append(viol('C06', i, 'order', 'select accepted with flags %r' % (flags,)))
             if ep == 'extra' and (flags[2] == 0 or flags[3] == 1):
                 out.append(viol('C06', i, 'order', 'additional step accepted with flags %r' % (flags,)))
+            if ep in finalised and va is not None and V(va, 'nrWinning') != V(vb, 'nrWinning'):
+                # the winners counter is written when a step (or the distribution sub-step) completes: once
+                finalised[ep] += 1
+                if finalised[ep] > 1:
+                    out.append(viol('C06', i, 'step_twice', '%s changed the winners counter in %d different calls (%r -> %r): a (sub-)step was completed more than once' % (ep, finalised[ep], V(vb, 'nrWinning'), V(va, 'nrWinning'))))
             if ep in ('setConfStart', 'setWsStart', 'setClaimStart'):
                 k = ['setConfStart', 'setWsStart', 'setClaimStart'].index(ep)
                 if not (cfg[k] > c.round and c.args[0] > c.round):
